@@ -15,16 +15,24 @@ from .poolfam import PoolFacts, queue_call
 
 
 def run(prog: Program, rep: Report):
-    pf = PoolFacts(prog)
-    r1_unowed_wait(prog, rep, pf)
-    r2_flag_cleared(prog, rep, pf)
-    r3_pause_resume(prog, rep, pf)
-    r4_lock_regions(prog, rep, pf)
-    r5_retest(prog, rep, pf)
+    from .poolfam import pool_facts
+    pf = pool_facts(prog, rep, "C02.R9")
+    rep.attempt(lambda: r1_unowed_wait(prog, rep, pf))
+    rep.attempt(lambda: r2_flag_cleared(prog, rep, pf))
+    rep.attempt(lambda: r3_pause_resume(prog, rep, pf))
+    rep.attempt(lambda: r4_lock_regions(prog, rep, pf))
+    rep.attempt(lambda: r5_retest(prog, rep, pf))
     from .c01 import counter_reset_per_call, feeder_early_exits
-    counter_reset_per_call(prog, rep, pf, "C02.R6")
-    feeder_early_exits(prog, rep, pf, "C02.R7")
-    r8_context_covers_iteration(prog, rep, pf)
+    rep.attempt(lambda: counter_reset_per_call(prog, rep, pf, "C02.R6"))
+    rep.attempt(lambda: feeder_early_exits(prog, rep, pf, "C02.R7"))
+    rep.attempt(lambda: r8_context_covers_iteration(prog, rep, pf))
+    # the completion test `sending or finished < sent` ends exactly when the counter equals the number of chunks put: the feeder's
+    # publication order and send accounting (C01.R2/R3) are necessary for termination too
+    from .c01 import r1_raised_before_start, r2_r3_feeder
+    from ..report import Report as _R
+    scratch = _R(rep.prop, rep.tier)
+    reset = r1_raised_before_start(prog, scratch, pf, "C02.R10x")
+    rep.attempt(lambda: r2_r3_feeder(prog, rep, pf, reset, R2="C02.R10", R3="C02.R11"))
 
 
 # ---------------------------------------------------------------------------------------------- R1
